@@ -83,6 +83,17 @@ def _main(a, prop, seed, t0):
     # obligations of recorded findings are expected not to be discharged: give them a short budget
     budgets = [(8 if (name in known and not name.endswith('~known-defect-shape')) else timeout) for name, ob, ax in obls]
     res = solve.discharge(jobs, timeout=timeout, budgets=budgets)
+    # a baseline obligation that came back undecided (not refuted) gets one more attempt with a larger budget and fewer parallel solvers:
+    # verdicts must not flip because the machine was busy (a refuted obligation is never retried)
+    try: base_names = set(json.load(open(os.path.join(ROOT, 'baseline', f'{prop}.json'))))
+    except Exception: base_names = set()
+    retry = [k for k, ((name, ob, _), r) in enumerate(zip(obls, res)) if ob.kind != 'canary' and r['result'] not in ('unsat', 'sat') and name in base_names and name not in known]
+    n_retried = 0
+    if retry and len(retry) <= 24:
+        res2 = solve.discharge([jobs[k] for k in retry], timeout=timeout * 3, jobs=6)
+        for k, r2 in zip(retry, res2):
+            if r2['result'] == 'unsat':
+                r2['log'] = res[k]['log'] + [('retry',)] + r2['log']; res[k] = r2; n_retried += 1
     # ---- collect per-name status
     by_name = {}
     canary_bad = []
